@@ -165,7 +165,10 @@ def refauto(r, target, log, env):
                 k = key[1]
             else:
                 k = ref_t(target, key[1])
-            out[k] = v
+            try:
+                out[k] = v
+            except TypeError:
+                raise RefErr(TypeError, 'unhashable computed key')
         return out
     if kind == 'list':
         out = []
